@@ -385,6 +385,24 @@ def gen_C14(tier, seed):
         p.meta['what'] = what
         progs.append(p.build())
     progs += rewidth_programs('C14', rng)
+    # a decorated function that raised (or returned) earlier in the process: an ordinary file with names only the normal mode
+    # accepts is still written, as in a fresh process
+    for i in range(3):
+        p = Prog(f'C14-afterdecorated-{i}', {'kind': 'afterdecorated'})
+        for fid in (1, 101):
+            if fid == 101:
+                p.next_proc(fresh=True)
+            if fid == 1:
+                p.steps.append({'op': 'hc_decorated', 'steps': [], 'raise_inside': i != 2})
+                if i == 1:
+                    p.steps.append({'op': 'hc_decorated', 'steps': [], 'raise_inside': False})
+            p.file(fid, vrl=256, setid='lower case set identifier')
+            lf = p.lf(fid, lf=fid, fh_id='header with blanks')
+            p.origin(lf, name='origin.name')
+            c = p.channel(lf, 'channel name', data=np.arange(3, dtype='int16'), units=S('furlongs'))
+            p.frame(lf, 'frame name', [c])
+            p.write(fid, fname='after.dlis' if fid == 1 else 'fresh.dlis')
+        progs.append(p.build())
     # the file header (id, sequence number) changed between two writes: the next file is the one of a fresh process
     for i in range(4):
         p = Prog(f'C14-reheader-{i}', {'kind': 'reheader'})
@@ -802,6 +820,33 @@ def gen_C20(tier, seed):
         p.write(101, route='dict', data_arrays={c1: good_a, c2: good_b}, fname='fresh.dlis')
         progs.append(p.build())
     progs += rewidth_programs('C20', rng)
+    # a call that one version of the library accepts and another refuses (arguments that only fit together after a later
+    # assignment): whether refused or not, the repeated call leaves exactly one object behind
+    for i, cls in enumerate(['parameter', 'computation', 'calibration_measurement', 'channel']):
+        p = Prog(f'C20-latecheck-{i}', {'kind': 'rejected', 'variant': 'latecheck', 'cls': cls, 'cmpproj': False})
+        for proc in (1, 2):
+            fid = proc
+            p.file(fid, vrl=512)
+            lf = p.lf(fid, lf=proc, fh_id='LATE-CHECKS')
+            p.origin(lf, name='ORIGIN')
+            c = p.channel(lf, 'DATA', data=np.arange(3, dtype='float64'))
+            p.frame(lf, 'FRAME', [c])
+            ax = p.add(lf, 'axis', 'AX', coordinates=L(F(1.0), F(2.0), F(3.0)) if proc == 1 else L(F(1.0), F(2.0)))
+            kw = {'axis': L(R(ax)), 'dimension': L(I(2))}
+            first = p.add(lf, cls, 'LATE', **kw) if cls != 'channel' else None
+            if cls == 'channel':
+                continue_ = None
+                first = p.channel(lf, 'LATE', axis=L(R(ax)), dimension=L(I(2)))
+            if proc == 1:
+                p.set(ax, 'coordinates', L(F(1.0), F(2.0)))                   # now the axis fits the dimension
+                st = dict(p.steps[[k for k, s_ in enumerate(p.steps) if s_.get('ref') == first][0]])
+                st['ref'] = p.ref('retry')
+                st['only_if_raised'] = first
+                p.steps.append(st)
+            p.write(fid, fname=f'out{proc}.dlis', valid=cls != 'channel', either=cls == 'channel')
+            if proc == 1:
+                p.next_proc()
+        progs.append(p.build())
     return progs
 
 
